@@ -1,6 +1,6 @@
 (** C11, second clause: if the plain diff of two values is empty, so is the diff
     under the options - under the guards that the refuted witnesses show to be
-    necessary: good kept keys (no clean-key collision, K8, F5), Python-equal
+    necessary: good kept keys (no clean-key collision, K8), Python-equal
     keys of equal type when key cleaning is active (1 / 1.0 / True), set members
     whose plain hash texts do not collide (K1). *)
 From Coq Require Import List ZArith NArith Bool Arith Lia.
@@ -206,14 +206,12 @@ Qed.
 
 (* dicts: the plain reports of added / removed keys *)
 Lemma key_reports0_nil : forall kind cks other kvs p1 p2,
-  key_reports F0 kind cks other [] kvs p1 p2 = Ok [] -> forall ck, In ck cks -> mem_atom ck other = true.
+  key_reports F0 kind cks other [] kvs p1 p2 = [] -> forall ck, In ck cks -> mem_atom ck other = true.
 Proof.
   induction cks as [|k r IH]; intros other kvs p1 p2 H ck Hck; [destruct Hck|].
   cbn [key_reports] in H. destruct (mem_atom k other) eqn:E.
   - destruct Hck as [Hck|Hck]; [subst; exact E|]. eapply IH; eassumption.
-  - exfalso. destruct (bytes_key (orig_key F0 [] k)); [discriminate|].
-    destruct (key_reports F0 kind r other [] kvs p1 p2) as [rest|e]; cbn [bind] in H; [|discriminate].
-    injection H as H0. apply app_eq_nil in H0. destruct H0 as [H0 _].
+  - exfalso. apply app_eq_nil in H. destruct H as [H0 _].
     destruct kind; eapply reportF0_cons; exact H0.
 Qed.
 
@@ -289,10 +287,8 @@ Proof.
     unfold kmap, ckeys in H. cbn [cleaning no_opts o_strty o_numty o_case orb bind] in H.
     set (ks1 := keys_of c kvs) in *. set (ks2 := keys_of c kvs2) in *.
     destruct (shortcutF c ks1 ks2); [exfalso; injection H as H0 H1; eapply reportF0_cons; exact H0|].
-    destruct (key_reports F0 KDictAdd ks2 ks1 [] kvs2 p1 p2) as [added|e] eqn:Eadd; cbn [bind] in H; [|discriminate].
-    destruct (key_reports F0 KDictRem ks1 ks2 [] kvs p1 p2) as [removed|e] eqn:Erem; cbn [bind] in H; [|discriminate].
     match type of H with bind ?G _ = _ => destruct G as [[ce cr]|e] eqn:Ecom end; cbn [bind fst snd] in H; [|discriminate].
-    injection H as H0 H1. apply app_eq_nil in H0. destruct H0 as [Ha H0]. apply app_eq_nil in H0. destruct H0 as [Hr Hc]. subst.
+    injection H as H0 H1. apply app_eq_nil in H0. destruct H0 as [Eadd H0]. apply app_eq_nil in H0. destruct H0 as [Erem Hc]. subst.
     pose proof (key_reports0_nil _ _ _ _ _ _ Eadd) as P2. pose proof (key_reports0_nil _ _ _ _ _ _ Erem) as P1.
     (* now the run under F *)
     subst ks1 ks2. cbn [diffF]. destruct (excluded F (type_of (VDict kvs)) || excluded F (type_of (VDict kvs2))); [reflexivity|].
@@ -321,13 +317,55 @@ Proof.
       pose proof (P1 k Hk) as Hm. apply mem_atom_In in Hm. destruct Hm as [k' [Hk' Hpe]].
       apply mem_atom_In. exists (ckey F k'). split; [apply in_map; exact Hk'|]. apply ckey_pyeq; auto. }
     rewrite (shortcutF_cover c _ _ thr_ok M2 M1).
-    rewrite (key_reports_all_mem F KDictAdd _ _ km2 kvs2 q1 q2 M2). cbn [bind].
-    rewrite (key_reports_all_mem F KDictRem _ _ km1 kvs q1 q2 M1). cbn [bind].
+    rewrite (key_reports_all_mem F KDictAdd _ _ km2 kvs2 q1 q2 M2).
+    rewrite (key_reports_all_mem F KDictRem _ _ km1 kvs q1 q2 M1).
     match goal with |- bind ?G _ = _ => assert (G = Ok ([], [])) as Hgo end.
     { assert (forall k v, In (k, v) kvs -> keep_key c k = true -> In (k, v) (kept c kvs)) as Hsub
         by (intros k v K1 K2; apply kept_In; split; assumption).
       assert (forall k v, In (k, v) kvs -> atoms_in KU SU v) as Hsu
         by (intros k v K1; exact (proj2 (atoms_in_dict KU SU kvs k v Hu1 K1))).
-      Show.
-Abort.
+      clear E1 Hk1 Et Eadd Erem P2 Hu1. revert r Ecom Hsub Hsu IH. generalize kvs at 1 2 4 5 6 as l.
+      induction l as [|[k v1] rl IHr]; intros r Ecom Hsub Hsu IH; [reflexivity|].
+      inversion IH as [|? ? Hx Hxs]; subst. cbn [snd] in Hx.
+      apply bind_nil in Ecom. destruct Ecom as [r1 [r2 [Ehere Erest]]].
+      rewrite (IHr r2 Erest (fun k' v' K => Hsub k' v' (or_intror K)) (fun k' v' K => Hsu k' v' (or_intror K)) Hxs).
+      destruct (keep_key c k) eqn:Hkeep; [|reflexivity].
+      pose proof (Hsub k v1 (or_introl eq_refl) Hkeep) as Hkv.
+      pose proof (kept_key_In c kvs k v1 Hkv) as Hk. fold ks1 in Hk.
+      rewrite (Er1 k Hk).
+      unfold repr_ckey, orig_key in Ehere. cbn [cleaning no_opts o_strty o_numty o_case orb] in Ehere.
+      destruct (find (py_eq k) ks2) as [k'|] eqn:Ef0.
+      2:{ exfalso. pose proof (P1 k Hk) as Hm. apply find_mem in Hm. destruct Hm as [k0 Hm]. congruence. }
+      apply find_some in Ef0. destruct Ef0 as [Hk' Hpe0].
+      assert (py_eq (ckey F k) (ckey F k') = true) as Hpe by (apply ckey_pyeq; auto).
+      destruct (find (py_eq (ckey F k)) (map (ckey F) ks2)) as [ck'|] eqn:Ef.
+      2:{ exfalso. eapply find_none in Ef; [|apply in_map; exact Hk']. congruence. }
+      apply find_some in Ef. destruct Ef as [Hin Hpe2].
+      assert (ck' = ckey F k') as Eck.
+      { apply (nodup_atoms_uniq _ _ _ Hnc2 Hin (in_map _ _ _ Hk')).
+        rewrite py_eq_sym in Hpe2. eapply py_eq_trans; eassumption. }
+      subst ck'.
+      rewrite (Eo2 k' Hk').
+      destruct (assoc k' kvs2) as [v2|] eqn:Ea; [|reflexivity].
+      pose proof Ea as Ea'. apply assoc_In in Ea'. destruct Ea' as [k2 [Hin2 Hpe3]].
+      assert (In (k2, v2) (kept c kvs2)) as Hkv2.
+      { apply kept_In. split; [exact Hin2|]. rewrite (keep_key_eqv c k2 k' Hpe3).
+        apply keys_of_In in Hk'. tauto. }
+      rewrite (Hx v2 _ _ _ _ r1 Ehere (guard_dict_val F c _ _ _ Hg1 Hkv) (guard_dict_val F c _ _ _ Hg2 Hkv2)
+                 (Hsu k v1 (or_introl eq_refl)) (proj2 (atoms_in_dict KU SU kvs2 k2 v2 Hu2 Hin2))). reflexivity. }
+    rewrite Hgo. reflexivity.
+  - (* set *)
+    destruct t2 as [b|ys|ys|kvs2|ys|ys]; cbn in Et; try discriminate; try (destruct b; discriminate).
+    injection H as H0 H1.
+    cbn [diffF]. destruct (excluded F (type_of (VSet xs)) || excluded F (type_of (VSet ys))); [reflexivity|].
+    cbn [type_of ty_eqb negb andb]. cbn [atoms_in] in Hu1, Hu2.
+    rewrite (set_mono xs ys p1 p2 q1 q2 Hu1 Hu2 H0). reflexivity.
+  - (* frozenset *)
+    destruct t2 as [b|ys|ys|kvs2|ys|ys]; cbn in Et; try discriminate; try (destruct b; discriminate).
+    injection H as H0 H1.
+    cbn [diffF]. destruct (excluded F (type_of (VFrozen xs)) || excluded F (type_of (VFrozen ys))); [reflexivity|].
+    cbn [type_of ty_eqb negb andb]. cbn [atoms_in] in Hu1, Hu2.
+    rewrite (set_mono xs ys p1 p2 q1 q2 Hu1 Hu2 H0). reflexivity.
+Qed.
+
 End Mono.
